@@ -12,7 +12,9 @@ from typing import Any, Dict, Iterator, List, Optional, Sequence, Tuple
 # ---------------------------------------------------------------------------
 PLAIN_NAMES = ["a", "b", "c", "d"]
 NASTY_NAMES = ["", "0", "1", "-1", "a b", "'", '"', "\\", "a'b", "/", "\n", "\t", "\u0001", "\u001f",
-               "\u007f", "é", "￿", "😀", "$", "@", "*", "a.b", "[0]", "true", "null", "_x", "A", "ab", "😀x", "a😀b", "😀😀", "😀\n", "\u0080", "\u009f", "a\x7fb"]
+               "\u007f", "é", "￿", "😀", "$", "@", "*", "a.b", "[0]", "true", "null", "_x", "A", "ab", "😀x", "a😀b", "😀😀", "😀\n", "\u0080", "\u009f", "a\x7fb",
+               # names whose CONTENT looks like quoting or escaping: backslash next to either quote, text that reads like an escape
+               '\\"', '"\\', "\\'", "'\\", 'a\\"b', "\\\\", '\\"\\', "'\"", "\"'", "\\n", "\\u0041", "\\/", "\"\"", "''", "\\\"'"]
 SCALARS: List[Any] = [0, 1, -1, 2, 10, 1.5, -0.0, 1.0, 0.1, "", "a", "b", "ab", "0", "é", "😀", True, False, None,
                       9007199254740993, -(10**30)]
 
